@@ -16,9 +16,14 @@
            processed again and must give the uninterrupted state;
       (ii) the spec's abstract state (status, producer maps, heights, votes, amounts,
            vote rights, mode, irreversibility fields) equals the real one after every step.
- 3. Several preludes (votes / penalties / cancellation / POW-DPOS switch) move the free
-    part of the exploration to where those mechanisms are live; simulation mode gives
-    ~30-block sequences.
+ 3. Several preludes (votes / penalties / cancellation / POW-DPOS switch / the first DPoS
+    blocks after a whole POW period) move the free part of the exploration to where those
+    mechanisms are live; simulation mode gives ~30-block sequences.
+ 4. The behaviours replayed are selected so that every change kind the spec logs for the
+    last two blocks, and every combination of different changes one block applies to one
+    producer / address / the mode fields, is present (dpos_common.pick); the harness keeps
+    amounts the code treats separately different (vote output value vs. votes, registration
+    output vs. locked deposit, stake output vs. change output).
 """
 import json, os, random, sys
 sys.path.insert(0, os.path.dirname(os.path.abspath(__file__)))
@@ -32,8 +37,9 @@ META = dict(
          "rollback the instance is compared field by field with a freshly built one, undone blocks are re-processed, and the spec's "
          "abstract state is compared after every step.",
     note="Unit-level (synthetic blocks, arbiter election kept quiescent); bounded: 3 producers, 2 stake addresses, <= 2 items per block, "
-         "2-4 free blocks after fixed preludes exhaustively, ~30-block sequences by simulation; rollback closures recorded as inexact "
-         "(known findings) are excluded from the model invariant, not from the comparison on the real code.",
+         "1-4 free blocks after fixed preludes (up to height 20, past a whole POW period) exhaustively, ~30-block sequences by simulation; "
+         "a stratified part of the printed behaviours is replayed; rollback closures recorded as inexact (known findings) are excluded "
+         "from the model invariant, not from the comparison on the real code.",
     technique="TLA+ model of the change-history mechanism (TLC exhaustive + simulation) + per-edge behaviour replay with a "
               "differential rollback oracle on the real code",
 )
@@ -75,12 +81,24 @@ def run(chk):
         jobs = [("basic", "basic", K, 8, 1, 1, 2500, 6, 1), ("basic-deep", "basic", K, 9, 1, 1, 2500, 6, 25),
                 ("votes", "votes", K, 10, 1, 1, 2500, 6, 2), ("votes-pairs", "votes", K, 9, 2, 1, 1500, 6, 1),
                 ("penalty", "penalty", K, 11, 1, 1, 2000, 6, 1), ("penalty-pairs", "penalty", K, 10, 2, 1, 700, 6, 1),
-                ("cancel-pairs", "cancel", K, 12, 2, 1, 2500, 6, 4), ("mode", "mode", K, 18, 1, 1, 1500, 6, 2)]
+                ("cancel-pairs", "cancel", K, 12, 2, 1, 2500, 6, 4), ("mode", "mode", K, 18, 1, 1, 1500, 6, 2),
+                # past the POW period: block DPOSWorkHeight + 1 = 19 and what follows it
+                ("switch", "switch", K, 20, 1, 1, 1500, 6, 1), ("switch-pairs", "switch", K, 19, 2, 1, 1000, 6, 1),
+                # a producer with a stale activation request / an earlier cancellation (captured values that are not the defaults)
+                ("reactivate", "reactivate", K, 18, 1, 1, 800, 6, 1),
+                # expiry of a v2 producer and of its votes (block 11), automatic activation of an inactive producer (block 13)
+                ("late", "late", K, 13, 1, 1, 1200, 6, 1)]
         # model checking only: two free blocks of pairs, the POW-DPOS switch with three free blocks
         big = [("basic-pairs", "basic", K, 8, 2, 1), ("mode-deep", "mode", K, 19, 1, 1), ("cancel-pairs", "cancel", K, 12, 2, 1)]
     else:
         jobs = [("basic", "basic", K, 8, 1, 1, 240, 4, 1), ("votes", "votes", K, 10, 1, 1, 220, 4, 4),
-                ("cancel", "cancel", K, 11, 2, 1, 200, 4, 1)]
+                ("cancel", "cancel", K, 11, 2, 1, 200, 4, 1),
+                # heights 19-20 after the forced POW period (7..18); the sweep rolls back across block 19
+                ("switch", "switch", K, 20, 1, 1, 150, 4, 5),
+                # a producer with a stale activation request / an earlier cancellation (captured values that are not the defaults)
+                ("reactivate", "reactivate", K, 18, 1, 1, 100, 4, 3),
+                # expiry of a v2 producer and of its votes (block 11), automatic activation of an inactive producer (block 13)
+                ("late", "late", K, 13, 1, 1, 120, 4, 3)]
     # simulation (long sequences) runs beside the exhaustive jobs
     import concurrent.futures
     num = 60 if thorough else 8
@@ -89,8 +107,10 @@ def run(chk):
         sims = [ex.submit(dc.simulate, chk, "sim", "basic", K, 30 if thorough else 24, num, vf.seed())]
         if thorough:   # one transaction per block: cheaper steps, more sequences
             sims.append(ex.submit(dc.simulate, chk, "sim-single", "basic", K, 30, 250, vf.seed() + 1, 1))
+            # 12 random blocks after the forced POW period
+            sims.append(ex.submit(dc.simulate, chk, "sim-switch", "switch", K, 30, 40, vf.seed() + 2))
         xh = ex.submit(dc.exhaustive_all, chk, big) if big else None
-        allbehs = dc.explore_all(chk, jobs)
+        allbehs = dc.explore_all(chk, jobs, parallel=3 if thorough else 6)
         simres = [f.result() for f in sims]
         if xh:
             xh.result()
@@ -98,10 +118,19 @@ def run(chk):
         chk.absorb(recs, "replay simulated sequences")
     selftest(chk, allbehs[0], "basic")
     chk.assumptions += dc.ASSUMPTIONS + [
-        "TLC bounds: preludes of 6-16 forced blocks, then 2 (quick) / 2-3 (thorough) free blocks exhaustively with 1 (quick) or 2 items "
-        "per block and one RollbackTo of up to 4 heights; the replay sweeps rollback targets up to 6 heights back at the end of every "
-        "behaviour; simulation: %d sequences of 24-30 blocks with up to 2 rollbacks (thorough: plus 250 single-transaction-per-block "
-        "sequences)" % num,
+        "TLC bounds: preludes of 6-18 forced blocks (basic / votes / cancel / switch = a whole POW period 7..18 with the free blocks "
+        "starting at DPOSWorkHeight+1 = 19 / reactivate = a producer with a stale activation request and an earlier cancellation / "
+        "late = expiry of a v2 producer and its votes at 11, automatic re-activation at 13), then "
+        "1-2 (quick) / 1-3 (thorough) free blocks exhaustively with 1 (quick; 2 after the cancel prelude) or 2 items per block and one "
+        "RollbackTo of up to 4 heights (never below the prelude); the replay sweeps rollback targets up to 4 (quick) / 6 (thorough) heights "
+        "back - into the prelude - at the end of every behaviour; of the printed behaviours 100-240 per configuration (quick; thorough "
+        "700-2500) are replayed, chosen so that every change kind and every same-subject combination of change kinds of the last two "
+        "blocks occurs; simulation: %d sequences of 24-30 blocks with up to 2 rollbacks (thorough: plus 250 single-transaction-per-block "
+        "sequences and 40 sequences continuing 12 blocks after the POW period)" % num,
+        "harness amounts: a v1 vote of a2 is a VoteProducerAndCRVersion output of 7 ELA carrying 3 ELA of votes, a v1 vote of a1 a "
+        "version-0 output of 3 ELA (counted by value) carrying a different per-candidate amount; a registration pays 1 ELA more than the "
+        "locked minimum deposit; a stake transaction has a change output of a different value; a Voting (DPoS v2) transaction carries one "
+        "candidate, so the sum of a content's votes and the per-candidate votes coincide (not separated)",
         "blocks that change the status of one producer twice are a named deviation of the spec (not applied; shown on the real code by "
         "the driver with a fixed follow-up block), as is the repeated expiry of a v2 producer (expProdAgain)",
     ]
